@@ -3,8 +3,9 @@ CONSTANTS
   U = 1024
   RootT = 4
   Family = "events2"
-  Grids <- Grids_t2
-  MaxT = 2
+  Grids <- Grids_ev
+  MaxT = 1
   MaxRoots = 1
+  KAll = TRUE
   Known <- Known_none
 INVARIANTS ContractHolds Emit
